@@ -1007,7 +1007,8 @@ class World:
         withkeys = [kk for kk, st in self.clients.items() if st["keys"]]
         if len(withkeys) < 2:
             return
-        first = next((r.client for r in self.tap if r.kind == "get_req" and not r.corrupted and r.client in withkeys), None)
+        # the session it follows is that of the first check-in it is SHOWN (whether or not the server answered that one)
+        first = next((r.client for r in self.tap if r.kind == "get_req" and not r.corrupted and r.client is not None), None)
         if first is None:
             return
         self.res.probes["shared_rsa_decoder"] += 1
